@@ -144,6 +144,8 @@ def record(variant: str, readers: list, chunks: list[bytes], plan_payloads=None,
         pp = [intern.pid(("p", p)) for p in (plan_payloads or [])]
         return {"id": stable_id("proto", variant, names, [c.hex() for c in chunks][:50], len(chunks)), "canary": "", "origin": origin,
                 "variant": variant, "mode": mode, "candidates": names or [], "calls": calls, "plan_payloads": pp, "plan_count": plan_count,
+                "plan_hex": [p.hex() for p in plan_payloads] if plan_payloads is not None and sum(map(len, plan_payloads)) < 6000 else [],
+                "plan_hex_ok": plan_payloads is not None and sum(map(len, plan_payloads)) < 6000,
                 "chunks": [c.hex() for c in chunks] if sum(map(len, chunks)) < 6000 else []}
     finally:
         loop.close()
@@ -172,7 +174,10 @@ def _mk(args):
     seed, n = args
     rng = random.Random(seed)
     out = []
+    hist: list = []
     for k in range(n):
+        if 0 < k <= 8 and out:     # what the earlier protocol instances of this process saw, for the replay of a history-dependent failure
+            hist.append({"variant": out[-1]["variant"], "candidates": out[-1]["candidates"], "chunks": out[-1]["chunks"]})
         variant = "payload" if k % 2 == 0 else "message"
         style = rng.choice(["hdlc_clean", "hdlc_clean", "p1_clean", "p1_clean", "hdlc_dirty", "p1_dirty", "noise", "p1_sandwich", "hdlc_sandwich"])
         names = rng.choice(CAND_LISTS)
@@ -276,6 +281,8 @@ def _mk(args):
             out.append(t)
         else:
             out.append(record(variant, mk_readers(names), split(data, cuts), plan_payloads, mode, f"gen:{style}:{how}{':typed' if typed else ''}", names, container=how, typed=typed, plan_count=plan_count))
+        if 0 < k < 8 and all(h["chunks"] for h in hist):
+            out[-1]["history"] = list(hist)
     return out
 
 
@@ -526,7 +533,15 @@ def replay_any(chk: Check, rp: dict, prefixes) -> int:
     if not t.get("chunks"):
         raise MachineryError("replay file carries no chunks (stream too long); re-run the check with the recorded seed")
     chunks = [bytes.fromhex(c) for c in t["chunks"]]
-    nt = record(t["variant"], mk_readers(t["candidates"]), chunks, None, "free", "replay", t["candidates"], typed=":typed" in t.get("origin", ""))
+    typed = ":typed" in t.get("origin", "")
+    for h in t.get("history") or []:       # the protocol instances that lived in the same process before this one
+        record(h["variant"], mk_readers(h["candidates"]), [bytes.fromhex(c) for c in h["chunks"]], None, "free", "replay-history", h["candidates"], typed=True)
+    plan, mode = None, "free"
+    if t.get("mode") == "clean" and t.get("plan_hex_ok"):
+        plan, mode = [bytes.fromhex(x) for x in t["plan_hex"]], "clean"
+    elif t.get("mode") == "clean_count":
+        mode = "clean_count"
+    nt = record(t["variant"], mk_readers(t["candidates"]), chunks, plan, mode, "replay", t["candidates"], typed=typed, plan_count=t.get("plan_count", 0))
     v = chk.judge("proto", "Trace_Proto", [nt], what="replay")
     harvest(chk, [nt], v, prefixes)
     return chk.finish(rule="replay of one protocol trace")
